@@ -11,6 +11,7 @@ CASES = [
     ('SdHost.tla', 'MCSdBugKeepType.cfg', None), ('SdHost.tla', 'MCSdBugNoStatus.cfg', 'FaultIsError'), ('SdHost.tla', 'MCSdBugPreCount.cfg', 'NowhereElse'),
     ('FatData.tla', 'MCDataBugRewindHalf.cfg', None), ('FatData.tla', 'MCDataBugLateCursor.cfg', None), ('FatData.tla', 'MCDataBugStepInCluster.cfg', 'ReadExact'),
     ('MCApi.tla', 'MCApiWrap.cfg', 'HandlesDistinct'),
+    ('BlockCache.tla', 'MCCacheBugKeepOnWriteFail.cfg', 'Coherent'), ('BlockCache.tla', 'MCCacheBugTagBeforeRead.cfg', 'Coherent'), ('BlockCache.tla', 'MCCacheBugKeepTagOnReadFail.cfg', None),
 ]
 bad = 0
 for mod, cfg, inv in CASES:
